@@ -1,5 +1,5 @@
 From C20 Require Import Spec Model.
 Require Extraction.
 Require Import ExtrOcamlBasic.
-Extraction "model.ml" blake2b_impl blake2b_rfc lblake2b lbase58_encode lbase58_decode stringer_hash
+Extraction "model.ml" blake2b_impl blake2b_rfc lblake2b lbase58_encode lbase58_decode stringer_hash stringer_hash_default
   base58_spec_encode base58_spec_decode compress_c rfc_F.
